@@ -287,6 +287,41 @@ for mode, label in (("NUMBER_FRACTION", "number"), ("MASS_FRACTION", "mass")):
         c.no_raise()
 
 
+# a component given with the amount ZERO (end point of a composition sweep) has the fractions 0 %; the others share 100 % as if it were absent
+for mode, label in (("NUMBER_FRACTION", "number"), ("MASS_FRACTION", "mass")):
+    @contract(f"{MAT}.data_composite", ["C11"], name=f"Material.data_composite[zero-amount-component-{label}-fractions-given]")
+    def _(c, mode=mode):
+        c.bound = "mixtures of 2-3 substances one of which has the amount 0 or 0.0 (dict and text form); the other proportions symbolic (dict) or literal (text)"
+        c.chunk = 2
+        c.assume_nonzero_divisors = True
+        for mix in (["H2O", "NaCl"], ["N2", "O2", "Ar"]):
+            for pos in range(len(mix)):
+                for zero in (0, 0.0):
+                    def pre(b, mix=mix, pos=pos, zero=zero):
+                        ps = [zero if i == pos else b.real(f"p{i}") for i in range(len(mix))]
+                        for i, p in enumerate(ps):
+                            if i != pos:
+                                b.assume_rel(p, ">", 0)
+                        norm = b.getattr(b.cls(NORM), mode)
+                        m = b.new(MAT, b.dict({s: p for s, p in zip(mix, ps)}), norm_type=norm)
+                        return dict(args=[m], kwargs=dict(quantity=False), env=dict(ps=ps, ms=[_mass(s, True) for s in mix], keys=list(mix)))
+                    c.scenario("+".join(mix) + f"[amount-{zero!r}-at-{pos}]", pre)
+        for mix, lit in [(["H2O", "NaCl", "CO2"], ["0.0", "1.0", "0.5"]), (["H2O", "NaCl"], ["0.75", "0"])]:
+            def pre_s(b, mix=mix, lit=lit):
+                norm = b.getattr(b.cls(NORM), mode)
+                m = b.new(MAT, " ".join(f"{p} <{s}>" for s, p in zip(mix, lit)), norm_type=norm)
+                return dict(args=[m], kwargs=dict(quantity=False), env=dict(ps=[float(p) for p in lit], ms=[_mass(s, True) for s in mix], keys=list(mix)))
+            c.scenario("text:" + "+".join(f"{p}<{s}>" for s, p in zip(mix, lit)), pre_s)
+        if mode == "NUMBER_FRACTION":
+            c.ensures("all([near(frac(result, k, 'x'), 100 * p / sum(ps)) for k, p in zip(keys, ps)])", "x-proportional-to-the-amount")
+            c.ensures("all([near(frac(result, k, 'X'), 100 * p * m / sum([q * w for q, w in zip(ps, ms)])) for k, p, m in zip(keys, ps, ms)])", "X-proportional-to-amount-times-mass")
+        else:
+            c.ensures("all([near(frac(result, k, 'X'), 100 * p / sum(ps)) for k, p in zip(keys, ps)])", "X-proportional-to-the-given-mass-fraction")
+            c.ensures("all([near(frac(result, k, 'x'), 100 * (p / m) / sum([q / w for q, w in zip(ps, ms)])) for k, p, m in zip(keys, ps, ms)])", "x-proportional-to-mass-fraction-over-mass")
+        c.ensures("near(frac(result, 'sum', 'x'), 100) and near(frac(result, 'sum', 'X'), 100)", "fractions-sum-to-100-percent")
+        c.no_raise()
+
+
 # a table restricted to a selection of components reports, for each selected component, the fractions it has in the whole material
 for mode in ("NUMBER_FRACTION", "MASS_FRACTION"):
     @contract(f"{MAT}.data_composite", ["C11"], name=f"Material.data_composite[selection-{'number' if mode == 'NUMBER_FRACTION' else 'mass'}-fractions-given]")
